@@ -1326,6 +1326,9 @@ func (kmc *KeystoreManagerForPoC) Lock() {
 }
 
 func (kmc *KeystoreManagerForPoC) IsLocked() bool {
+	kmc.mu.Lock()
+	defer kmc.mu.Unlock()
+
 	return !kmc.unlocked
 }
 
@@ -1371,6 +1374,9 @@ func (kmc *KeystoreManagerForPoC) NextAddresses(accountID string, internal bool,
 }
 
 func (kmc *KeystoreManagerForPoC) GenerateNewPublicKey() (*pocec.PublicKey, uint32, error) {
+	kmc.mu.Lock()
+	defer kmc.mu.Unlock()
+
 	managedAddresses := make([]*ManagedAddress, 0)
 	var accountID string
 	var pubkey *pocec.PublicKey
